@@ -136,7 +136,13 @@ func (p *Peer) processSendQueue() {
 		var chunk message.Frame
 		chunk, frame = frame.Split(maxByteFrameSize)
 		if len(chunk) == 0 {
-			break
+			if len(frame) == 0 {
+				break
+			}
+
+			// The first message alone exceeds the limit and can not be split any further,
+			// send it on its own instead of dropping everything which is queued behind it.
+			chunk, frame = frame[:1], frame[1:]
 		}
 
 		buffer := chunk.Encode()
